@@ -179,6 +179,72 @@ func builtinsMentionsError(n ast.Node) bool {
 	return found
 }
 
+// builtinsConjuncts flattens a && b && c
+func builtinsConjuncts(e ast.Expr) []ast.Expr {
+	if p, ok := e.(*ast.ParenExpr); ok {
+		return builtinsConjuncts(p.X)
+	}
+	if b, ok := e.(*ast.BinaryExpr); ok && b.Op == token.LAND {
+		return append(builtinsConjuncts(b.X), builtinsConjuncts(b.Y)...)
+	}
+	return []ast.Expr{e}
+}
+
+// builtinsGuardAtom names one conjunct of the "invoke of Error()" special case: invoke | method-name=<lit> | nargs=<n> | other
+func builtinsGuardAtom(e ast.Expr) string {
+	if c, ok := e.(*ast.CallExpr); ok {
+		if sel, ok := c.Fun.(*ast.SelectorExpr); ok && sel.Sel.Name == "IsInvoke" && len(c.Args) == 0 {
+			return "invoke"
+		}
+	}
+	if n, ok := builtinsLenArgsGuard(e); ok {
+		return fmt.Sprintf("nargs=%d", n)
+	}
+	if b, ok := e.(*ast.BinaryExpr); ok && b.Op == token.EQL {
+		if lit, ok := b.Y.(*ast.BasicLit); ok && lit.Kind == token.STRING {
+			if c, ok := b.X.(*ast.CallExpr); ok {
+				if sel, ok := c.Fun.(*ast.SelectorExpr); ok && sel.Sel.Name == "Name" {
+					if inner, ok := sel.X.(*ast.SelectorExpr); ok && inner.Sel.Name == "Method" {
+						if s, err := strconv.Unquote(lit.Value); err == nil {
+							return "method-name=" + s
+						}
+					}
+				}
+			}
+		}
+	}
+	return "other"
+}
+
+// builtinsErrorGuards collects, in fd, every condition (if condition or returned boolean) that mentions the literal "Error",
+// as the sorted list of its conjunct atoms
+func builtinsErrorGuards(fd *ast.FuncDecl) [][]string {
+	var res [][]string
+	add := func(e ast.Expr) {
+		if e == nil || !builtinsMentionsError(e) {
+			return
+		}
+		var atoms []string
+		for _, c := range builtinsConjuncts(e) {
+			atoms = append(atoms, builtinsGuardAtom(c))
+		}
+		sort.Strings(atoms)
+		res = append(res, atoms)
+	}
+	ast.Inspect(fd, func(n ast.Node) bool {
+		switch x := n.(type) {
+		case *ast.IfStmt:
+			add(x.Cond)
+		case *ast.ReturnStmt:
+			for _, r := range x.Results {
+				add(r)
+			}
+		}
+		return true
+	})
+	return res
+}
+
 func genBuiltins(repo, out string) error {
 	fset := token.NewFileSet()
 	file, err := parser.ParseFile(fset, filepath.Join(repo, "analysis/dataflow/builtins.go"), nil, 0)
@@ -341,6 +407,29 @@ func genBuiltins(repo, out string) error {
 			all = "true"
 		}
 		fmt.Fprintf(&sb, "  {| b_name := %s; b_arity := %s; b_all := %s; b_pos := [%s] |}%s\n", q(r.name), optNat(r.arity), all, strings.Join(ps, "; "), sep)
+	}
+	sb.WriteString("].\n\n(* every condition mentioning the method name \"Error\" (the special case `x.Error()` of the builtin error interface):\n   function, sorted conjunct atoms (invoke | method-name=<s> | nargs=<n> | other) *)\n")
+	sb.WriteString("Definition error_guards : list (string * list string) := [\n")
+	type eg struct {
+		fn    string
+		atoms []string
+	}
+	var egs []eg
+	for _, fd := range []*ast.FuncDecl{isHandled, doCall} {
+		for _, a := range builtinsErrorGuards(fd) {
+			egs = append(egs, eg{fd.Name.Name, a})
+		}
+	}
+	for i, g := range egs {
+		sep := ";"
+		if i == len(egs)-1 {
+			sep = ""
+		}
+		qs := make([]string, len(g.atoms))
+		for k, a := range g.atoms {
+			qs[k] = q(a)
+		}
+		fmt.Fprintf(&sb, "  (%s, [%s])%s\n", q(g.fn), strings.Join(qs, "; "), sep)
 	}
 	sb.WriteString("].\n\n(* builtins of the Go version in use: name, a call returns a value, arities of the ssa.Builtin call (lo, hi; None: variadic) *)\n")
 	sb.WriteString("Definition go_builtins : list gobuiltin := [\n")
